@@ -601,8 +601,10 @@ static void c07_case_doc(const char *doc, size_t len, unsigned epmask, int use)
 /* ---- the type-confusion matrix ---- */
 static const char *MEMBERS[] = { "kty", "alg", "use", "key_ops", "kid", "n", "e", "d", "p", "q", "dp", "dq", "qi", "crv", "x", "y", "k" };
 #define NMEM 17
-static const char *SHAPES[] = { NULL /* absent */, "null", "true", "0", "1.5", "[]", "[\"x\"]", "{}", "\"\"", "\"!\"", "\"A\"", "\"AAAA\"", "\"-_-_\"", "\"RS256\"", "\"PS256\"", "\"P-256\"" };
-#define NSHAPE 16
+static const char *SHAPES[] = { NULL /* absent */, "null", "true", "0", "1.5", "[]", "[\"x\"]", "{}", "\"\"", "\"!\"", "\"A\"", "\"AAAA\"", "\"-_-_\"", "\"RS256\"", "\"PS256\"", "\"P-256\"",
+				/* text that is valid JSON/UTF-8 but not base64url: non-ASCII characters (2- and 3-byte), leading and embedded padding */
+				"\"\\u00b0\\u00b0\\u00b0\\u00b0\"", "\"AA\\u20acA\"", "\"==\"", "\"=AAA\"", "\"AAAA=AAAA\"" };
+#define NSHAPE 21
 static const char *shape_label(int i) { return SHAPES[i] ? SHAPES[i] : "<absent>"; }
 
 static json_t *TEMPL[12];
